@@ -86,6 +86,14 @@ def invalid_cases(rng, kind, thorough):
                 yield ("control-char", "%s U+%04X" % (where_, ord(c)), ("\r\n".join(lines) + "\r\n").encode("utf-8"))
             second = ["BEGIN:VCARD", "VERSION:3.0", "FN:Second" + c + "Card", "N:Card;Second;;;", "UID:c14inv-second", "END:VCARD"]
             yield ("control-char", "second-card U+%04X" % ord(c), ("\r\n".join(good + second) + "\r\n").encode("utf-8"))
+        # a body of two cards cut inside the second one, and a complete card followed by something else
+        second = ["BEGIN:VCARD", "VERSION:3.0", "FN:Second Card", "N:Card;Second;;;", "UID:c14inv-second2", "NOTE:the second card", "END:VCARD"]
+        two = ("\r\n".join(good + second) + "\r\n").encode()
+        first_len = len(("\r\n".join(good) + "\r\n").encode())
+        for _ in range(6 if thorough else 3):
+            yield ("truncated-byte", "inside the second card of the body", two[:rng.randint(first_len + 12, len(two) - 11)])
+        yield ("truncated-line", "second card without END", ("\r\n".join(good + second[:-1]) + "\r\n").encode())
+        yield ("arbitrary", "a complete card followed by other text", ("\r\n".join(good) + "\r\nand then something else\r\n").encode())
         yield ("wrong-root", "VCALENDAR as text/vcard", ("\r\n".join(gen.ical_lines(rng, "c14inv", "tok", rich=False)) + "\r\n").encode())
 
 
@@ -339,8 +347,11 @@ def run_shard(args):
         w.provision_bare("/user/calendars/barecal/", "calendar", meta="gitconfig")
         w.provision_bare("/user/contacts/bareab/", "addressbook", meta="file")
         w.start()
-        w.mkcol("/user/calendars/cal0/", "calendar")
-        w.mkcol("/user/contacts/ab0/", "addressbook")
+        # in every other shard the collections are plain ones that were typed afterwards (PROPPATCH resourcetype)
+        later = args["seed"] % 2 == 1
+        w.mkcol("/user/calendars/cal0/", "calendar", how="mkcol-then-proppatch" if later else "auto")
+        w.mkcol("/user/contacts/ab0/", "addressbook", how="mkcol-then-proppatch" if later else "auto")
+        res.count("shards_with_collections_typed_after_creation", 1 if later else 0)
         cfg = {k: args[k] for k in ("fe", "prefix", "seed", "nvalid", "thorough")}
         run = Runner(w, res, rng, cfg)
         targets = [("/user/calendars/cal0/", "calendar", "tree"), ("/user/contacts/ab0/", "addressbook", "tree"),
@@ -380,6 +391,7 @@ def check(tier, seed, t0):
     c = merged["counters"]
     gen_n = max(1, c.get("valid_generated", 0))
     guards = [("valid bodies generated", c.get("valid_generated", 0), 600 if not th else 8000),
+              ("shards whose collections were typed after creation", c.get("shards_with_collections_typed_after_creation", 0), 3),
               ("invalid bodies sent by POST add-member", c.get("invalid_posted", 0), 100), ("of which refused", c.get("invalid_post_refused", 0), 80),
               ("invalid bodies whose bytes were stored before under an unvalidated type", c.get("primed_plain_stored", 0) + c.get("primed_other_stored", 0), 60),
               ("share of valid bodies accepted (percent)", 100 * c.get("valid_accepted", 0) // gen_n, 90),
